@@ -32,8 +32,8 @@ Fraction = fractions.Fraction
 TIERS = {
     'quick': dict(shapes=[2310, 2311, 2312, 1411], sample_mod=64, nm_mod=8, witness=[2312],
                   max_cases=640),
-    'thorough': dict(shapes=[13310, 3311, 3320, 3312, 2410, 2411, 2421, 2510, 1532], sample_mod=192, nm_mod=60,
-                     witness=[3311], max_cases=4500),
+    'thorough': dict(shapes=[13310, 3311, 3320, 3312, 2410, 2411, 2421, 2510, 1532], sample_mod=128, nm_mod=60,
+                     witness=[3311], max_cases=7000),
 }
 
 DESIGN_INVARIANTS = ['TypeOK', 'AggregateIsTotals', 'FitIsOLS', 'SelectedAreAnalysed', 'ImplRefinesClosedForm',
@@ -426,6 +426,10 @@ def load_mods():
     from matched_markets.methodology import tbr_iroas
     from matched_markets.methodology import tbrmmdesignparameters
     from matched_markets.methodology import tbrmmdiagnostics
+    import warnings
+    # statsmodels re-enables its own warning categories on import; the fixed-cost fit (all-zero regressor) would
+    # print a SingularMatrixWarning per fit
+    warnings.simplefilter('ignore')
     _MODS = {'np': np, 'pd': pd, 'st': st, 'tbr': tbr, 'iroas': tbr_iroas, 'par': tbrmmdesignparameters,
              'diag': tbrmmdiagnostics}
   return _MODS
